@@ -26,7 +26,7 @@ Next == /\ l <= Len(Rec)
                                 /\ Chk("report_version", ToString(t.rdh_version), ev.report.version)
                                 /\ Chk("report_data_format", ToString(t.data_format), ev.report.df)
                                 /\ (ev.analysing => Chk("report_hbfs", ToString(t.hbfs_seen), ev.report.hbfs))
-                                /\ (ev.flt # 0 => Chk("report_rdhs_filtered", ToString(t.rdhs_filtered), ev.report.rdhs_filtered)))
+                                /\ (ev.flt.k # "none" => Chk("report_rdhs_filtered", ToString(t.rdhs_filtered), ev.report.rdhs_filtered)))
         /\ l' = l + 1
 Spec == Init /\ [][Next]_l
 Accepted == IF TLCGet("stats").diameter - 1 = Len(Rec) THEN TRUE
